@@ -63,6 +63,55 @@ def build_dataset(kind, pos_unit):
     return ds, spec
 
 
+PYTHAGOREAN = [(1, 2, 2, 3), (2, 3, 6, 7), (1, 4, 8, 9), (4, 4, 7, 9), (2, 6, 9, 11), (6, 6, 7, 11), (3, 4, 12, 13), (2, 10, 11, 15),
+               (2, 5, 14, 15), (8, 9, 12, 17), (4, 8, 19, 21), (12, 12, 21, 27), (5, 6, 30, 31)]
+
+
+def run_pythagorean(acc, idx, c):
+    """All sign/axis permutations of (a,b,c) around the origin, plus points one unit inside and outside."""
+    import itertools as it
+
+    import osyris
+
+    a, b, cc, r = c["quad"]
+    o = np.array(c["origin"], dtype=float)
+    pts = set()
+    for perm in set(it.permutations((a, b, cc))):
+        for sg in it.product((1, -1), repeat=3):
+            pts.add(tuple(p * s for p, s in zip(perm, sg)))
+    on = np.array(sorted(pts), dtype=float)
+    inside = on * np.array([1.0, 1.0, 0.0]) + np.array([0.0, 0.0, 1.0]) * np.sign(on[:, 2:3].ravel())[:, None] * (np.abs(on[:, 2:3]) - 1)
+    outside = on + np.sign(on) * np.array([0.0, 0.0, 1.0])
+    allp = np.concatenate([on, inside, outside]) + o
+    n = len(allp)
+    ds = osyris.Dataset()
+    g = osyris.Datagroup()
+    g["position"] = osyris.Vector(allp[:, 0].copy(), allp[:, 1].copy(), allp[:, 2].copy(), unit=c["pos_unit"])
+    g["tag"] = osyris.Array(np.arange(n, dtype=float), unit="g")
+    ds["mesh"] = g
+    f = {"m": 1.0, "cm": 0.01}[c["pos_unit"]] / {"m": 1.0, "cm": 0.01}[c["arg_unit"]]
+    d2 = np.sum((allp - o) ** 2, axis=1)
+    keep = d2 < r * r  # exact: all integers
+    # the radius must still be exactly r after conversion to the position unit, otherwise "on the surface" is not what
+    # is being asked (0.07 m is not 7 cm in binary floating point)
+    if float(osyris.Array(float(r) * f, unit=c["arg_unit"]).to(c["pos_unit"]).values) != float(r):
+        return "skipped-inexact-conversion", False
+    try:
+        sub = osyris.extract_sphere(ds, radius=osyris.Array(float(r) * f, unit=c["arg_unit"]), origin=osyris.Vector(*o, unit=c["pos_unit"]))
+    except Exception as e:
+        acc.violation(f"C16:extract-sphere-raised:{type(e).__name__}", idx, c, {"error": repr(e)[:200]})
+        return "raises", True
+    got = set(np.asarray(sub["mesh"]["tag"].values).astype(int).tolist()) if "mesh" in sub else set()
+    want = set(np.flatnonzero(keep).tolist())
+    if got != want:
+        extra, missing = sorted(got - want), sorted(want - got)
+        on_surface = [i for i in extra if d2[i] == r * r]
+        sig = "C16:rows-differ:sphere:row-on-surface-included" if on_surface else "C16:rows-differ:sphere:boundary"
+        acc.violation(sig, idx, c, {"extra": extra[:5], "missing": missing[:5], "example_offset": (allp[extra[0]] - o).tolist() if extra else None})
+        return "violation", True
+    return "ok", True
+
+
 def region_arg(val, unit, form):
     import osyris
 
@@ -153,6 +202,11 @@ def cases(thorough):
         for fn in ("sphere", "box"):
             for r in (0.0, 0.5, 4.0):
                 yield {"fn": fn, "ds": "loader", "size": r}
+    # integer positions at an exactly integer (off-axis) distance from the origin: on the sphere surface -> excluded
+    for quad in PYTHAGOREAN:
+        for origin in ([0, 0, 0], [1, -2, 3]):
+            for pu, ru in (("cm", "cm"), ("m", "cm"), ("cm", "m")):
+                yield {"fn": "sphere", "ds": "pythagorean", "quad": list(quad), "origin": origin, "pos_unit": pu, "arg_unit": ru}
 
 
 def run_case(acc, idx, c):
@@ -160,6 +214,8 @@ def run_case(acc, idx, c):
 
     if c["ds"] == "loader":
         return run_loader_case(acc, idx, c)
+    if c["ds"] == "pythagorean":
+        return run_pythagorean(acc, idx, c)
     ds, spec = build_dataset(c["ds"], c["pos_unit"])
     before = snapshot_ds(ds)
     scale = {"m": 1.0, "cm": 0.01}
